@@ -552,7 +552,17 @@ class Nodes:
                     # Strip off the tag
                     new_node = node.value
             elif value_tag:
-                new_node = TaggedScalar(value=node, tag=value_tag)
+                # A tagged Scalar carries the text of its value, as it does
+                # when loaded; ruamel.yaml can neither compare nor write any
+                # other kind of value.
+                tagged_value = node
+                if node is None:
+                    tagged_value = "null"
+                elif isinstance(node, (bool, ScalarBoolean)):
+                    tagged_value = "true" if node else "false"
+                elif not isinstance(node, str):
+                    tagged_value = str(node)
+                new_node = TaggedScalar(value=tagged_value, tag=value_tag)
                 if hasattr(node, "anchor") and node.anchor.value:
                     new_node.yaml_set_anchor(node.anchor.value)
         else:
